@@ -36,6 +36,9 @@ enum Mutation {
     ExtraUnusedInput,
     /// not invalid per the statement: a symbolic dim gets another size
     ChangeSymbolicDim(u16),
+    /// a sequence value supplied for an input declared as a tensor, and that
+    /// input requested as an output (so no operator gets a chance to reject it)
+    SequenceForTensor(u16, bool),
 }
 
 #[derive(Clone, Debug, Serialize, Deserialize)]
@@ -73,6 +76,7 @@ fn mutation() -> impl Strategy<Value = Mutation> {
         2 => (any::<u16>(), any::<u16>()).prop_map(|(a, b)| Mutation::WrongFixedDim(a, b)),
         1 => Just(Mutation::ExtraUnusedInput),
         1 => any::<u16>().prop_map(Mutation::ChangeSymbolicDim),
+        2 => (any::<u16>(), any::<bool>()).prop_map(|(a, b)| Mutation::SequenceForTensor(a, b)),
     ]
 }
 
@@ -151,6 +155,7 @@ fn oracle(profile: &Profile, c: &Case) -> Verdict {
 
     // needed inputs: those with a path to a requested output (a missing one of these is "missing required input")
     let mut must_fail = true;
+    let mut seq_override: Option<(usize, rten::DataType)> = None;
     let mut label: &'static str = "none";
     let mut applicable = true;
     match &c.mutation {
@@ -294,6 +299,22 @@ fn oracle(profile: &Profile, c: &Case) -> Verdict {
             }
             label = "extra-unused-input(not-invalid)";
         }
+        Mutation::SequenceForTensor(s, same_elem_type) => {
+            let cands: Vec<usize> = (0..in_ids.len()).filter(|k| has_dtype[*k]).collect();
+            if cands.is_empty() || c.api % 4 == 3 {
+                applicable = false;
+            } else {
+                let k = cands[idx(*s, cands.len())];
+                let elem = match (&vals[k], *same_elem_type) {
+                    (TVal::F32 { .. }, true) | (TVal::I32 { .. }, false) => rten::DataType::Float,
+                    _ => rten::DataType::Int32,
+                };
+                seq_override = Some((k, elem));
+                // request exactly that input as the output
+                out_ids = vec![in_ids[k]];
+            }
+            label = "sequence-for-tensor";
+        }
         Mutation::ChangeSymbolicDim(s) => {
             must_fail = false;
             let cands: Vec<(usize, usize)> = declared
@@ -320,7 +341,17 @@ fn oracle(profile: &Profile, c: &Case) -> Verdict {
     if !applicable {
         return Verdict::pass(false).label("mutation-not-applicable");
     }
-    let make_ins = || -> Vec<(NodeId, ValueOrView<'static>)> { in_ids.iter().zip(&vals).map(|(i, v)| (*i, ValueOrView::from(v.to_value()))).collect() };
+    let make_ins = || -> Vec<(NodeId, ValueOrView<'static>)> {
+        in_ids
+            .iter()
+            .zip(&vals)
+            .enumerate()
+            .map(|(k, (i, v))| match seq_override {
+                Some((ks, elem)) if ks == k => (*i, ValueOrView::from(Value::Sequence(rten::Sequence::new(elem)))),
+                _ => (*i, ValueOrView::from(v.to_value())),
+            })
+            .collect()
+    };
     let api_name = ["run", "partial_run", "run_n", "run_one"][(c.api % 4) as usize];
     let res: Result<Result<(), String>, vcore::PanicInfo> = match c.api % 4 {
         0 => vcore::catch(|| model.run(make_ins(), &out_ids, None).map(|_| ()).map_err(|e| e.to_string())),
